@@ -183,7 +183,13 @@ func c05NewEnv(t *testing.T) *c05Env {
 	must(os.WriteFile(env.trustStore, pem.EncodeToMemory(&pem.Block{Type: "CERTIFICATE", Bytes: ca.Certificate.Raw}), 0o600))
 
 	env.srv = httptest.NewServer(http.HandlerFunc(func(w http.ResponseWriter, r *http.Request) {
-		mode, _ := env.modes.Load(r.URL.Path)
+		// the JWKS service answers per request: path, and the tenant header if the request carries one
+		key := r.URL.Path
+		if tenant := r.Header.Get("X-Tenant"); tenant != "" {
+			key += "#" + tenant
+		}
+
+		mode, _ := env.modes.Load(key)
 
 		switch {
 		case strings.HasPrefix(r.URL.Path, "/status/") || mode == "RStatus":
@@ -192,7 +198,7 @@ func c05NewEnv(t *testing.T) *c05Env {
 			w.Header().Set("Content-Type", "application/json")
 			w.Write([]byte("<<< not json >>>"))
 		default:
-			b, ok := env.bodies.Load(r.URL.Path)
+			b, ok := env.bodies.Load(key)
 			if !ok {
 				w.WriteHeader(http.StatusNotFound)
 
@@ -2241,7 +2247,8 @@ type c05HStep struct {
 type c05Hist struct {
 	Proto     c05Exp     `json:"proto"`
 	CacheTTL  string     `json:"cache_ttl"` // default 5m 0s
-	Templated bool       `json:"templated"`
+	Templated bool       `json:"templated"` // the key-set request depends on the token's issuer
+	Render    string     `json:"render"`    // where the {{ .TokenIssuer }} template sits: none url header both
 	IDFrom    string     `json:"id_from"`
 	Steps     []c05HStep `json:"steps"`
 }
@@ -2265,11 +2272,13 @@ func c05CopyEnv(env map[string]c05Pub) map[string]c05Pub {
 
 func (e *c05Env) genHist(r *vf.Rand) c05Hist {
 	h := c05Hist{
-		Proto:     c05Exp{Issuers: []string{"tenant-a", "tenant-b"}},
-		CacheTTL:  vf.Pick(r, []string{"default", "default", "default", "5m", "0s"}),
-		Templated: r.Chance(85),
-		IDFrom:    "",
+		Proto:    c05Exp{Issuers: []string{"tenant-a", "tenant-b"}},
+		CacheTTL: vf.Pick(r, []string{"default", "default", "default", "5m", "0s"}),
+		Render:   vf.Pick(r, []string{"url", "url", "url", "header", "header", "both", "none"}),
+		IDFrom:   "",
 	}
+
+	h.Templated = h.Render != "none"
 
 	if r.Chance(60) {
 		h.Proto.Issuers = append(h.Proto.Issuers, "tenant-c")
@@ -2516,6 +2525,16 @@ func c05HistCorpus() []c05Hist {
 		return c05HStep{Env: c05CopyEnv(env), Tenant: tenant, How: how, Tok: t, CacheOn: true}
 	}
 	proto := c05Exp{Issuers: []string{"tenant-a", "tenant-b"}}
+	disjoint := map[string]c05Pub{
+		"tenant-a": {Remote: "RUp", Keys: []c05Key{{Kid: "k1", Alg: "ES256", Mat: 3, Cert: "none"}, {Kid: "k3", Alg: "ES384", Mat: 5, Cert: "none"}}},
+		"tenant-b": {Remote: "RUp", Keys: []c05Key{{Kid: "k2", Alg: "ES256", Mat: 4, Cert: "none"}}},
+	}
+	tok384 := func(tenant, kid string, mat int) *c05Token {
+		t := tok(tenant, kid, mat)
+		t.SignAlg = "ES384"
+
+		return t
+	}
 	badCert := map[string]c05Pub{
 		"tenant-a": {Remote: "RUp", Keys: []c05Key{{Kid: "k1", Alg: "ES256", Mat: 3, Cert: "otherca"}}},
 	}
@@ -2574,6 +2593,25 @@ func c05HistCorpus() []c05Hist {
 			ruleTTL(step(rotated, "tenant-a", "previous", tok("tenant-a", "k1", 3)), "1m"),
 			step(rotated, "tenant-a", "previous", tok("tenant-a", "k1", 3)),
 		}},
+		// C05-F6: the tenant travels in a templated HEADER, same url; both tenants use kid k1 for different keys
+		{Proto: proto, CacheTTL: "default", Templated: true, Render: "header", Steps: []c05HStep{
+			step(env, "tenant-a", "own", tok("tenant-a", "k1", 3)),
+			step(env, "tenant-b", "cross", tok("tenant-b", "k1", 3)),
+			step(env, "tenant-b", "own", tok("tenant-b", "k1", 4)),
+		}},
+		// templated header, the tenants' kids differ: every request is judged by the key set of ITS issuer,
+		// whatever an earlier request of the same authenticator rendered (seeded/C05-9: the first issuer stuck)
+		{Proto: proto, CacheTTL: "default", Templated: true, Render: "header", Steps: []c05HStep{
+			step(disjoint, "tenant-a", "own", tok("tenant-a", "k1", 3)),
+			step(disjoint, "tenant-b", "cross", tok384("tenant-b", "k3", 5)),
+			step(disjoint, "tenant-b", "own", tok("tenant-b", "k2", 4)),
+			step(disjoint, "tenant-a", "own", tok384("tenant-a", "k3", 5)),
+		}},
+		{Proto: proto, CacheTTL: "default", Templated: true, Render: "both", Steps: []c05HStep{
+			step(disjoint, "tenant-b", "own", tok("tenant-b", "k2", 4)),
+			step(disjoint, "tenant-a", "own", tok("tenant-a", "k1", 3)),
+			step(disjoint, "tenant-a", "cross", tok("tenant-a", "k2", 4)),
+		}},
 		// the same with the cache off
 		{Proto: proto, CacheTTL: "0s", Templated: true, Steps: []c05HStep{
 			{Env: c05CopyEnv(env), Tenant: "tenant-a", How: "own", Tok: tok("tenant-a", "k1", 3)},
@@ -2590,19 +2628,33 @@ func (e *c05Env) runHist(hid int, h *c05Hist) {
 	}
 
 	base := fmt.Sprintf("%s/t/%d", e.srv.URL, hid)
+	if h.Render == "" {
+		h.Render = c05If(h.Templated, "url", "none")
+	}
+
+	inURL := h.Render == "url" || h.Render == "both"
+	inHeader := h.Render == "header" || h.Render == "both"
+
+	// what the JWKS service keys the published sets by
 	pathOf := func(id string) string {
-		if h.Templated {
-			return fmt.Sprintf("/t/%d/%s/jwks", hid, id)
+		p := fmt.Sprintf("/t/%d/jwks", hid)
+		if inURL {
+			p = fmt.Sprintf("/t/%d/%s/jwks", hid, id)
 		}
 
-		return fmt.Sprintf("/t/%d/jwks", hid)
+		if inHeader && id != "" {
+			p += "#" + id
+		}
+
+		return p
 	}
 
-	if h.Templated {
-		conf["jwks_endpoint"] = map[string]any{"url": base + "/{{ .TokenIssuer }}/jwks"}
-	} else {
-		conf["jwks_endpoint"] = map[string]any{"url": base + "/jwks"}
+	ep := map[string]any{"url": base + c05If(inURL, "/{{ .TokenIssuer }}/jwks", "/jwks")}
+	if inHeader {
+		ep["headers"] = map[string]any{"X-Tenant": "{{ .TokenIssuer }}"}
 	}
+
+	conf["jwks_endpoint"] = ep
 
 	if h.CacheTTL != "default" {
 		conf["cache_ttl"] = h.CacheTTL
@@ -2753,7 +2805,8 @@ func c05CoqHist(h c05Hist) string {
 
 		ttlNS := map[string]int64{"default": -1, "0s": 0, "1m": 60_000_000_000, "5m": 300_000_000_000}[ttl]
 
-		steps = append(steps, vf.CoqApp("hs", cf, vf.CoqBool(st.CacheOn), vf.CoqZ(ttlNS), vf.CoqBool(h.Templated), vf.CoqList(env),
+		steps = append(steps, vf.CoqApp("hs", cf, vf.CoqBool(st.CacheOn), vf.CoqZ(ttlNS), vf.CoqBool(h.Templated),
+			vf.CoqBool(h.Render == "url" || h.Render == "both" || (h.Render == "" && h.Templated)), vf.CoqList(env),
 			vf.CoqZ(st.Obs.Now), c05CoqCred(pseudo), obs, vf.CoqBool(st.Obs.AttrsOK)))
 	}
 
@@ -2774,7 +2827,7 @@ type c05HObs struct {
 }
 
 func c05HistTags(h c05Hist) ([]string, bool) {
-	tags := []string{fmt.Sprintf("steps:%d", len(h.Steps)), "cache:" + h.CacheTTL, "templated:" + c05If(h.Templated, "yes", "no")}
+	tags := []string{fmt.Sprintf("steps:%d", len(h.Steps)), "cache:" + h.CacheTTL, "templated:" + c05If(h.Templated, "yes", "no"), "render:" + h.Render}
 	nontrivial := false
 	seen := map[string]bool{}      // url/kid for which a key must be cached by now
 	laxFilled := map[string]bool{} // ... and was put there by the authenticator that does not validate certificates
